@@ -10,6 +10,7 @@ import (
 	"sort"
 	"strconv"
 	"sync"
+	"time"
 
 	"github.com/massnetorg/mass-core/pocec"
 	"massnet.org/mass/config"
@@ -157,16 +158,63 @@ func main() {
 			close(stop)
 			sw.Wait()
 		}
+		// C03: a keystore created while the private passphrase is being changed ends up, like every other keystore,
+		// under the one passphrase in force afterwards (no keystore answers to the superseded passphrase)
+		{
+			alt := []byte("privpassB2")
+			cur, other := priv, alt
+			for rep := 0; rep < 6; rep++ {
+				var pw sync.WaitGroup
+				var errCh error
+				seed := sha256.Sum256([]byte(fmt.Sprintf("conc-late-seed-%d-%d", round, rep)))
+				delay := time.Duration(h.Rng.Intn(400)) * time.Microsecond
+				pw.Add(2)
+				go func() { defer pw.Done(); kmc.NewKeystore(cur, seed[:], "late", config.ChainParams, fast) }()
+				go func() { defer pw.Done(); time.Sleep(delay); errCh = kmc.ChangePrivPassphrase(cur, other, fast) }()
+				pw.Wait()
+				if errCh == nil {
+					cur, other = other, cur
+				}
+				h.Res.OracleEvals++
+				for _, n := range kmc.ListKeystoreNames() {
+					_, errCur := kmc.ExportKeystore(n, cur)
+					_, errOld := kmc.ExportKeystore(n, other)
+					if errCur != nil || errOld == nil {
+						h.FailWith("C03:two-passphrases-concurrent", fmt.Sprintf("after a keystore creation concurrent with a passphrase change, keystore %s: export with the passphrase in force -> %v, with the superseded one -> %v", n, errCur, errOld), nil)
+					}
+				}
+			}
+			if string(cur) != string(priv) {
+				kmc.ChangePrivPassphrase(cur, priv, fast)
+			}
+		}
 		// oracles: ordinals unique per key, keys unique, reopened state equals the running one
 		h.Res.OracleEvals++
 		seen := map[string]bool{}
 		for _, is := range issued {
 			if seen[is.pk] {
 				h.FailWith("C14:duplicate-plot-key", "the same plot public key was returned to two concurrent callers", nil)
+				h.FailWith("C06:duplicate-key-concurrent", "the same plot public key was returned to two concurrent GenerateNewPublicKey callers", nil)
 			}
 			seen[is.pk] = true
 		}
 		_, live := kmc.VerifDump()
+		// C06: the ordinal handed out with a key is that key's index on the external branch of the keystore that owns it,
+		// and a later lookup says the same
+		where := map[string]uint32{}
+		for _, k := range live {
+			for _, a := range k.Addrs {
+				if a.Branch == 0 {
+					where[fmt.Sprintf("%x", a.PubKey)] = a.Index
+				}
+			}
+		}
+		for _, is := range issued {
+			h.Res.OracleEvals++
+			if idx, ok := where[is.pk]; !ok || idx != is.ord {
+				h.FailWith("C06:ordinal-not-index-concurrent", fmt.Sprintf("a concurrent GenerateNewPublicKey returned ordinal %d for a key whose index in its keystore is %d (recorded=%v)", is.ord, idx, ok), nil)
+			}
+		}
 		for _, k := range live {
 			var ne, ni uint32
 			for _, a := range k.Addrs {
